@@ -46,8 +46,20 @@ FinalOk(c) ==
       i == c.rounds[1]
   IN /\ DiffKeys(f[1], f[2]) = {}
      /\ \A k \in KeysOf(i[1]) \cup KeysOf(i[2]) : k \in KeysOf(f[1]) /\ ObsOf(f[1], k) = Obs(MergedOf(i[1], i[2], k))
+(* one exchange suffices when the per-round key limit does not bind: every key of the divergent buckets is merged on both sides *)
+InBuckets(s, bk) == {k \in KeysOf(s) : Ent(s, k)[2] \in bk}
+OneRoundOk(c) ==
+  LET r0 == c.rounds[1]
+      r1 == c.rounds[2]
+      bk == BucketsOf(r0[1], r0[2], DiffKeys(r0[1], r0[2]))
+      ka == InBuckets(r0[1], bk)
+      kb == InBuckets(r0[2], bk) IN
+  (Cardinality(ka) <= c.limit /\ Cardinality(kb) <= c.limit) =>
+     \A k \in ka \cup kb : /\ k \in KeysOf(r1[1]) /\ ObsOf(r1[1], k) = Obs(MergedOf(r0[1], r0[2], k))
+                            /\ k \in KeysOf(r1[2]) /\ ObsOf(r1[2], k) = Obs(MergedOf(r0[1], r0[2], k))
 SyncVerdict(c) ==
   IF "panic" \in DOMAIN c THEN "panic"
+  ELSE IF Len(c.rounds) >= 2 /\ ~OneRoundOk(c) THEN "after one sync exchange (key limit not binding) a key of a divergent bucket is not the merge on both sides"
   ELSE IF \E j \in 1..(Len(c.rounds) - 1) : ~RoundOk(c.rounds[j], c.rounds[j + 1]) THEN "a sync round left a key that is neither unchanged nor the merge of both sides"
   ELSE IF ~FinalOk(c) THEN "not in sync (or not merged) within the bound of rounds"
   ELSE "ok"
